@@ -20,7 +20,8 @@ let run (c : string) (obs : string) : string * string * string =
       else if List.length flags <> 5 then "FAIL kind=malformed-observation"
       else if bad = [] then "ok" else "FAIL " ^ String.concat "," (List.map (fun w -> "kind=free-" ^ String.sub w 0 (String.index w '=')) bad) in
     ("once=1 maxok=1 order=1 handled=1 sdafter=1", v, "free")
-  | ["cfg"; w; d; total; pan] :: rest ->
+  | ("cfg" :: w :: d :: total :: pan :: hopt) :: rest ->
+    let with_handler = hopt <> ["nohandler"] in
     let workers = int_of_string w and total = int_of_string total in
     let panics = if pan = "-" then [] else ints pan in
     let (cin, body) = (match String.index_opt obs '|' with
@@ -41,7 +42,7 @@ let run (c : string) (obs : string) : string * string * string =
     let show_obs o =
       if o.o_panic then "DISPATCHER-PANIC" else
       Printf.sprintf "sub=%d st=%s fin=%s h=%s sd=%d skip=%d" (int_of_nat o.o_submitted) (show (norm o.o_started)) (show (norm o.o_finished))
-        (show (List.sort compare (List.map int_of_nat o.o_handled))) (if o.o_shutdown then 1 else 0) (if o.o_skipped then 1 else 0) in
+        (if with_handler then show (List.sort compare (List.map int_of_nat o.o_handled)) else "") (if o.o_shutdown then 1 else 0) (if o.o_skipped then 1 else 0) in
     let model = Printf.sprintf "cin=%d|%s" cin (String.concat " / " (List.map show_obs res)) in
     let errs = ref [] in
     let add k = if not (List.mem k !errs) then errs := k :: !errs in
@@ -65,7 +66,7 @@ let run (c : string) (obs : string) : string * string * string =
         if workers = 1 && st <> List.init (List.length st) (fun i -> i) then add "kind=one-worker-order";
         if List.length (List.sort_uniq compare h) <> List.length h then add "kind=panic-reported-twice";
         if List.exists (fun t -> not (List.mem t panics && List.mem t fin)) h then add "kind=spurious-panic-report";
-        if List.exists (fun t -> List.mem t panics && not (List.mem t h)) fin then add "kind=panic-not-reported";
+        if with_handler && List.exists (fun t -> List.mem t panics && not (List.mem t h)) fin then add "kind=panic-not-reported";
         if get ws "sd" = "1" && List.length fin <> total then add "kind=shutdown-before-all-finished";
         if sub < total then blocked := true
       end) steps;
